@@ -848,6 +848,37 @@ func c10FoldQuote(c *fw.Ctx) {
 	}
 }
 
+// c10EmptyPatterns: every spelling of "nothing" (and the usual nullable shapes) as a single
+// rule: it denotes a language containing the empty string, so a lexer built from it must not
+// hand out zero-length tokens - lex.Compile has to refuse it.
+func c10EmptyPatterns(c *fw.Ctx) {
+	for _, ep := range lxEmptyPatterns {
+		for mode := 0; mode < 4; mode++ {
+			m := rx.Mode{Bytes: mode&1 != 0, Fold: mode&2 != 0}
+			files := map[string]string{"pattern.txt": ep.Pat, "mode.txt": fmt.Sprintf("%+v %v", m, ep.Defs)}
+			c.Note(files)
+			_, tables, perr, cerr := c10Tables(ep.Pat, m, ep.Defs)
+			c.Count("empty_patterns_probed", 1)
+			if perr != nil {
+				c.Violate("valid-rejected/empty-pattern/"+fw.Skeleton(perr.Error()), fmt.Sprintf("pattern %q mode %+v: %v", ep.Pat, m, perr), files)
+				continue
+			}
+			if cerr != nil {
+				c.Count("empty_patterns_rejected_by_compile", 1)
+				continue
+			}
+			for _, text := range []string{"", "a", "ab 1", "1"} {
+				size, action := tables.Scan(0, text)
+				c.Eval(1)
+				if size == 0 && action != 0 {
+					c.Violate("denotation/regex/empty-token-returned", fmt.Sprintf("pattern /%s/ (patterns %v, mode %+v) compiled; on %q Tables.Scan = (0, %d): a zero-length token", ep.Pat, ep.Defs, m, text, action), files)
+					break
+				}
+			}
+		}
+	}
+}
+
 // c10ByteFoldTrap: byte mode + case folding + an escape for U+017F / U+212A. The
 // documented byte-mode meaning is "the UTF-8 bytes of that character, no folding
 // outside ASCII". (The compiler is known to exit here, so this is a case of its own.)
@@ -871,10 +902,10 @@ type c10Plan struct {
 
 func c10PlanFor(tier string) c10Plan {
 	if tier == "thorough" {
-		return c10Plan{fixed: 4, names: 64, classes: 200, chars: 100, regex: 200, bad: 100, fuzz: 40, sweeps: 200,
+		return c10Plan{fixed: 5, names: 64, classes: 200, chars: 100, regex: 200, bad: 100, fuzz: 40, sweeps: 200,
 			perClass: 60, perChars: 100, perRegex: 100, perBad: 200, perFuzz: 500, perSweep: 2}
 	}
-	return c10Plan{fixed: 4, names: 16, classes: 24, chars: 12, regex: 24, bad: 12, fuzz: 4, sweeps: 8,
+	return c10Plan{fixed: 5, names: 16, classes: 24, chars: 12, regex: 24, bad: 12, fuzz: 4, sweeps: 8,
 		perClass: 30, perChars: 50, perRegex: 40, perBad: 100, perFuzz: 250, perSweep: 1}
 }
 
@@ -905,6 +936,8 @@ func c10Run(c *fw.Ctx) {
 			c10ByteFoldTrap(c, 0x17f)
 		case 3:
 			c10ByteFoldTrap(c, 0x212a)
+		case 4:
+			c10EmptyPatterns(c)
 		}
 		return
 	}
@@ -1011,7 +1044,7 @@ func init() {
 		MinNontrivial: func(tier string) int { return map[string]int{"thorough": 20000}[tier] + 1500 },
 		RequiredCounters: []string{"patterns_valid", "patterns_malformed", "malformed_rejected", "error_offsets_checked", "class_points_member", "class_points_nonmember",
 			"classes_swept_over_all_code_points", "unicode_class_patterns", "random_class_patterns", "char_spelling_patterns", "regex_patterns", "constant_patterns",
-			"fuzzed_rejected", "fuzzed_accepted", "fold_consistency_pairs", "fold_quote_probes", "invalid_utf8_probes", "nullable_patterns_rejected_by_compile"},
+			"fuzzed_rejected", "fuzzed_accepted", "fold_consistency_pairs", "fold_quote_probes", "invalid_utf8_probes", "nullable_patterns_rejected_by_compile", "empty_patterns_probed"},
 		CPUBudget: 900,
 	})
 }
